@@ -215,7 +215,95 @@ def fanout_order_probe():
     return [r]
 
 
+def returned_value_probe():
+    """what an operator RETURNED earlier belongs to the caller: editing it in place (total = vjp(g); total += ...) is an
+    ordinary part of a call history and must not change what later applications of the same VJP / JVP / gradient function
+    return.  Covers the branches that have no per-call work to do (output independent of the argument, unused container
+    leaves, zero tangents) - where a value built once and handed out every time would go unnoticed by single calls.
+    (Programs whose result IS the caller's own cotangent, e.g. the identity, are left out: editing that result edits the
+    caller's input, which is the caller's doing, not a dependence on history.)"""
+    import numpy as onp
+    import autograd.numpy as np
+    from autograd import grad, make_jvp, make_vjp, value_and_grad, jacobian, elementwise_grad
+
+    warnings.filterwarnings("ignore")
+
+    def leaves(v):
+        if isinstance(v, dict):
+            return [l for k in sorted(v) for l in leaves(v[k])]
+        if isinstance(v, (tuple, list)):
+            return [l for e in v for l in leaves(e)]
+        return [v]
+
+    def scribble(v):
+        for l in leaves(v):
+            if isinstance(l, onp.ndarray) and l.flags.writeable and l.size:
+                l += 7.5
+
+    def snap(v):
+        return [onp.array(l, copy=True) for l in leaves(v)]
+
+    def same(a, b):
+        return len(a) == len(b) and all(onp.shape(p) == onp.shape(q) and onp.array_equal(p, q) for p, q in zip(a, b))
+
+    xa = onp.array([0.5, -1.5, 2.0])
+    xt = (onp.array([0.5, -1.5]), 2.0, onp.array([[1.0, 2.0]]))
+    xd = {"w": onp.array([0.5, -1.5]), "c": onp.array([3.0, 4.0])}
+    g1 = onp.array([1.0, 2.0, 3.0])
+    progs = [
+        ("make_vjp of a constant output, array argument", lambda: make_vjp(lambda x: onp.array([1.0, 2.0, 3.0]))(xa)[0], lambda f: f(g1)),
+        ("make_vjp of a constant output, tuple argument", lambda: make_vjp(lambda t: 5.0)(xt)[0], lambda f: f(1.0)),
+        ("make_vjp of a constant output, dict argument", lambda: make_vjp(lambda d: onp.ones(2))(xd)[0], lambda f: f(onp.ones(2))),
+        ("make_vjp of a piecewise-constant output", lambda: make_vjp(lambda x: np.floor(x) * 2.0)(xa)[0], lambda f: f(g1)),
+        ("make_vjp with an unused tuple leaf", lambda: make_vjp(lambda t: np.sum(t[0] ** 2) * t[1])(xt)[0], lambda f: f(1.0)),
+        ("make_vjp with an unused dict leaf", lambda: make_vjp(lambda d: np.sum(np.sin(d["w"])))(xd)[0], lambda f: f(1.0)),
+        ("make_vjp of a linear map (the cotangent itself could be handed back)", lambda: make_vjp(lambda x: x * 1.0 + 0.0)(xa)[0], lambda f: f(g1)),
+        ("make_jvp of a constant output", lambda: make_jvp(lambda x: onp.array([1.0, 2.0]))(xa), lambda f: f(g1)[1]),
+        ("grad of a constant, same gradient function called again", lambda: grad(lambda x: 3.0), lambda f: f(xa)),
+        ("grad with an unused tuple leaf, same gradient function called again", lambda: grad(lambda t: np.sum(t[0] ** 2)), lambda f: f(xt)),
+        ("value_and_grad of a constant", lambda: value_and_grad(lambda d: 2.0), lambda f: f(xd)[1]),
+        ("jacobian of a constant output", lambda: jacobian(lambda x: onp.ones(2)), lambda f: f(xa)),
+        ("elementwise_grad of a piecewise-constant function", lambda: elementwise_grad(lambda x: np.sign(x)), lambda f: f(xa)),
+    ]
+    out = []
+    for lab, build, call in progs:
+        key = "HISTORY returned values | %s: apply, edit the result in place, apply again (x3)" % lab
+        r = {"key": key, "prim": "returned", "paths": 4, "queries": 0, "validated": 1, "verdicts": {}}
+        try:
+            fresh = snap(call(build()))  # what a first application of a brand-new function object returns
+            f = build()
+            problems = []
+            g_before = g1.copy()
+            for round_ in range(3):
+                res = call(f)
+                if not same(snap(res), fresh):
+                    problems.append("application %d returned %r, a fresh function object returns %r" % (round_ + 1, [onp.asarray(l).tolist() for l in leaves(res)], [l.tolist() for l in fresh]))
+                    break
+                scribble(res)
+            if not onp.array_equal(g1, g_before):
+                problems.append("the caller's cotangent / tangent was modified")
+                g1[:] = g_before
+            for nm, v0, v in (("array", onp.array([0.5, -1.5, 2.0]), xa), ("tuple leaf", onp.array([0.5, -1.5]), xt[0]), ("dict leaf", onp.array([3.0, 4.0]), xd["c"])):
+                if not onp.array_equal(v0, v):
+                    problems.append("the caller's %s argument was modified" % nm)
+                    v[...] = v0
+            r["status"], r["detail"] = ("holds", "") if not problems else ("violation", "; ".join(problems)[:500])
+            if problems:
+                r["cex"] = {"mode": "history", "prim": "__returned__", "config": lab}
+                r["validated"] = 0
+        except Exception as e:
+            r["status"], r["detail"] = "raises", "%s: %s" % (type(e).__name__, str(e)[:100])
+        out.append(r)
+    return out
+
+
 def replay(prim):
+    if prim == "__returned__":
+        rs = returned_value_probe()
+        bad = [r for r in rs if r["status"] == "violation"]
+        for r in bad:
+            print(r["detail"])
+        return bool(bad)
     rs = fanout_order_probe() if prim == "__fanout__" else run("quick", prim)
     bad = [r for r in rs if r["status"] == "violation"]
     for r in bad:
